@@ -624,6 +624,7 @@ def _run_program(plan, res, log, z, specs, heap, snaps, used, last_user, seen, p
                 continue
             # ---- an ordinary call by caller st["c"]
             res.count("op.call")
+            res.count("called." + fname)
             for p, i in idx.items():
                 sp = specs[i]
                 if used[i]:
